@@ -131,11 +131,24 @@ PROPS = {
                 "n_quick": 21,
                 "n_thorough": 40,
                 "model": True
+            },
+            {
+                "name": "c20json",
+                "run_vo": "Model/RunAuditLogJson.vo",
+                "n_quick": 5,
+                "n_thorough": 30,
+                "model": True
             }
         ],
+        "properties": [
+            "C20",
+            "C20_json"
+        ],
         "trusted": [
-            "modelled, not verified: logrus' rendering of an entry into the formatted bytes (TextFormatter / CEFTextFormatter output is the model's input; the harness checks that the authenticated bytes ARE the formatter's output) and encoding/json (a JSON line is its decoded field map)",
-            "JSON: field-map level only (partial): honest/tamper theorems are proved for parsed lines of any format, the JSON hook/parser pair is tied by correspondence and by the oracle, not by a for-all theorem",
+            "modelled, not verified: logrus' rendering of an entry into the formatted bytes (TextFormatter / CEFTextFormatter / JSONFormatter output is the model's input; the harness checks that the authenticated bytes ARE the formatter's output; for JSON a spy hook records what JSONFormatterHook.PostFormat receives)",
+            "JSON (C20_json): modelled from the syntax tree of the formatted entry to the BYTES that are authenticated and written (decode into float64 / json.Number, convertMapToBytes, json.Marshal incl. shortest float digits and string escaping, all replayed byte for byte); outside the model: encoding/json's tokenizer (a JSON text reaches the model as the syntax tree Go's own Decoder.Token delivers; that the written line tokenizes to to_wire of the marshalled map is replayed, op JWrite)",
+            "JSON decoder configuration of writer side and verifier side (AL_JSON_WRITER_USENUMBER / AL_JSON_VERIFIER_USENUMBER) and json.Marshal's ASCII table are regenerated on every run by RUNNING JSONFormatterHook.PostFormat / JSONLogParser.ParseEntry / json.Marshal (go/ast result recorded as a comment); C20_json_same_decoder is proved from them by reflexivity",
+            "strconv's shortest-round-trip guarantee is NOT assumed: the side condition of C20_honest_json_verifies checks parse(print(parse(lit))) = parse(lit) for every number literal of the history with the model's exact printer/parser (w_ok), evaluated on every replayed history (op JWf) and probed on float tables / random bits (op FloatProbe)",
             "bytes the hooks truncate (1 for plaintext, 2 for CEF) are literals inside acra functions, copied into Model/AuditLog.v (TRUNC_TEXT/TRUNC_CEF); a change is caught by the byte-exact writer replay",
             "time stamps of the service entries written by ResetChain/FinalizeChain are wall-clock: case files differ between runs in those bytes only (verdicts and scenario generation are seed-deterministic)"
         ],
